@@ -14,19 +14,19 @@ func OutputFromMarkdown(w io.Writer, r io.Reader, options ...Option) error {
 
 // MkdirFromMarkdown makes directories.
 func MkdirFromMarkdown(r io.Reader, options ...Option) error {
-	cfg := newConfig(options)
+	cfg := newConfigWithoutEncode(options)
 	return initializeTree(cfg).mkdir(r, cfg)
 }
 
 // VerifyFromMarkdown verifies directories.
 func VerifyFromMarkdown(r io.Reader, options ...Option) error {
-	cfg := newConfig(options)
+	cfg := newConfigWithoutEncode(options)
 	return initializeTree(cfg).verify(r, cfg)
 }
 
 // WalkFromMarkdown executes user-defined function while traversing tree structure recursively.
 func WalkFromMarkdown(r io.Reader, callback func(*WalkerNode) error, options ...Option) error {
-	cfg := newConfig(options)
+	cfg := newConfigWithoutEncode(options)
 	return initializeTree(cfg).walk(r, callback, cfg)
 }
 
@@ -42,7 +42,7 @@ func Output(w io.Writer, r io.Reader, options ...Option) error {
 //
 // Deprecated: Call MkdirFromMarkdown.
 func Mkdir(r io.Reader, options ...Option) error {
-	cfg := newConfig(options)
+	cfg := newConfigWithoutEncode(options)
 	return initializeTree(cfg).mkdir(r, cfg)
 }
 
@@ -50,7 +50,7 @@ func Mkdir(r io.Reader, options ...Option) error {
 //
 // Deprecated: Call VerifyFromMarkdown.
 func Verify(r io.Reader, options ...Option) error {
-	cfg := newConfig(options)
+	cfg := newConfigWithoutEncode(options)
 	return initializeTree(cfg).verify(r, cfg)
 }
 
@@ -58,6 +58,6 @@ func Verify(r io.Reader, options ...Option) error {
 //
 // Deprecated: Call WalkFromMarkdown.
 func Walk(r io.Reader, callback func(*WalkerNode) error, options ...Option) error {
-	cfg := newConfig(options)
+	cfg := newConfigWithoutEncode(options)
 	return initializeTree(cfg).walk(r, callback, cfg)
 }
